@@ -63,9 +63,78 @@ fn write_if_changed(p: &Path, s: &str) {
     std::fs::write(p, s).expect("write");
 }
 
+/// how many items get a second, identical copy (`pub mod d<i>`) at the end of the crate
+const DUPLICATES: usize = 6;
+
 fn crate_source(items: &[String]) -> String {
     let order: Vec<usize> = (0..items.len()).collect();
-    crate_source_ordered(items, &order)
+    let mut s = crate_source_ordered(items, &order);
+    // the same item twice in one crate -- expanded twice by one rustc process: everything about the
+    // two expansions must agree, hygiene included (compared by `hygiene_of_duplicates`)
+    for i in 0..items.len().min(DUPLICATES) {
+        s.push_str(&format!("pub mod d{} {{\nuse o2o::o2o;\n#[derive(o2o)]\n{}}}\n", i, items[i]));
+    }
+    s
+}
+
+/// The text of `pub mod <prefix><i> { ... }` in an expanded crate, hygiene annotations
+/// `/* sym#ctxt */` renumbered by first appearance of the syntax context inside the block.
+fn hygiene_block(rendering: &str, prefix: char, i: usize) -> Option<String> {
+    // (`pub mod d0 /* 3198#0 */ {`: the name carries an annotation of its own)
+    let head = format!("pub mod {}{} ", prefix, i);
+    let at = rendering.find(&head)? + head.len();
+    let start = at + rendering[at..].find('{')? + 1;
+    let b = rendering.as_bytes();
+    let mut depth = 1i32;
+    let mut k = start;
+    while k < b.len() && depth > 0 {
+        match b[k] {
+            b'{' => depth += 1,
+            b'}' => depth -= 1,
+            _ => {},
+        }
+        k += 1;
+    }
+    if depth != 0 {
+        return None;
+    }
+    let body = &rendering[start..k - 1];
+    let mut out = String::with_capacity(body.len());
+    let mut ctxts: Vec<String> = Vec::new();
+    let mut rest = body;
+    while let Some(p) = rest.find("/*") {
+        out.push_str(&rest[..p]);
+        let Some(q) = rest[p..].find("*/") else { break };
+        let inner = rest[p + 2..p + q].trim();
+        match inner.split_once('#') {
+            Some((_sym, ctxt)) if ctxt.chars().all(|c| c.is_ascii_digit()) && !ctxt.is_empty() => {
+                let idx = match ctxts.iter().position(|c| c == ctxt) {
+                    Some(x) => x,
+                    None => {
+                        ctxts.push(ctxt.to_string());
+                        ctxts.len() - 1
+                    },
+                };
+                out.push_str(&format!("/*#{}*/", idx));
+            },
+            _ => out.push_str(&rest[p..p + q + 2]),
+        }
+        rest = &rest[p + q + 2..];
+    }
+    out.push_str(rest);
+    Some(out.split_whitespace().collect::<Vec<_>>().join(" "))
+}
+
+/// first duplicated item whose two expansions differ (in tokens or in hygiene), if any
+fn hygiene_of_duplicates(rendering: &str, n_items: usize) -> Option<(usize, String)> {
+    for i in 0..n_items.min(DUPLICATES) {
+        if let (Some(a), Some(b)) = (hygiene_block(rendering, 'm', i), hygiene_block(rendering, 'd', i)) {
+            if a != b {
+                return Some((i, first_diff(&a, &b)));
+            }
+        }
+    }
+    None
 }
 
 /// the same modules (same names), laid out in the given order: rustc expands derives in
@@ -183,6 +252,16 @@ fn unwrap_surroundings(ts: proc_macro2::TokenStream) -> proc_macro2::TokenStream
     let mut v: Vec<TokenTree> = ts.into_iter().collect();
     loop {
         let is_ident = |t: &TokenTree, s: &str| matches!(t, TokenTree::Ident(i) if i == s);
+        // (hygiene annotations of the wrappers' own names are not part of any item)
+        let is_ctx = |t: &TokenTree| matches!(t, TokenTree::Ident(i) if i.to_string().starts_with("__ctx_"));
+        let mut k = 0;
+        while k + 1 < v.len() {
+            if (is_ident(&v[k], "inner") || is_ident(&v[k], "deeper") || is_ident(&v[k], "surrounding_fn") || is_ident(&v[k], "make_item") || is_ident(&v[k], "macro_rules")) && is_ctx(&v[k + 1]) {
+                v.remove(k + 1);
+            } else {
+                k += 1;
+            }
+        }
         // the definition of the macro that produced the item stays in the expanded crate
         if let Some(k) = (0..v.len().saturating_sub(3)).find(|&k| is_ident(&v[k], "macro_rules") && is_ident(&v[k + 2], "make_item") && matches!(&v[k + 3], TokenTree::Group(_))) {
             v.drain(k..k + 4);
@@ -212,19 +291,73 @@ fn unwrap_surroundings(ts: proc_macro2::TokenStream) -> proc_macro2::TokenStream
 /// None if rustc's output does not lex as Rust (then nothing is compared: never an alarm)
 fn normalise_acc_modules(rendering: &str) -> Option<String> {
     use proc_macro2::{Delimiter, TokenTree};
+    // hygiene annotations `/* sym#ctxt */` (comments to a lexer) become identifier tokens
+    // `__ctx_<ctxt>`; below they are renumbered by first appearance inside each module, so that
+    // two expansions are compared in the *structure* of their syntax contexts, not in the numbers
+    let mut pre = String::with_capacity(rendering.len());
+    let mut rest = rendering;
+    while let Some(p) = rest.find("/*") {
+        pre.push_str(&rest[..p]);
+        let Some(q) = rest[p..].find("*/") else {
+            rest = "";
+            break;
+        };
+        let inner = rest[p + 2..p + q].trim();
+        if let Some((sym, ctxt)) = inner.split_once('#') {
+            if !ctxt.is_empty() && ctxt.chars().all(|c| c.is_ascii_digit()) && sym.chars().all(|c| c.is_ascii_digit()) {
+                pre.push_str(&format!(" __ctx_{} ", ctxt));
+            }
+        }
+        rest = &rest[p + q + 2..];
+    }
+    pre.push_str(rest);
+    let rendering = pre.as_str();
     let ts: proc_macro2::TokenStream = rendering.parse().ok()?;
     let v: Vec<TokenTree> = ts.into_iter().collect();
     let mut blocks: Vec<(usize, String)> = Vec::new();
     for i in 0..v.len().saturating_sub(2) {
-        let (TokenTree::Ident(kw), TokenTree::Ident(name), TokenTree::Group(g)) = (&v[i], &v[i + 1], &v[i + 2]) else { continue };
-        if kw != "mod" || g.delimiter() != Delimiter::Brace {
+        let (TokenTree::Ident(kw), TokenTree::Ident(name)) = (&v[i], &v[i + 1]) else { continue };
+        if kw != "mod" {
+            continue;
+        }
+        // (the name may be followed by its own hygiene annotation)
+        let gi = if matches!(v.get(i + 2), Some(TokenTree::Ident(c)) if c.to_string().starts_with("__ctx_")) { i + 3 } else { i + 2 };
+        let Some(TokenTree::Group(g)) = v.get(gi) else { continue };
+        if g.delimiter() != Delimiter::Brace {
             continue;
         }
         let name = name.to_string();
         let Some(k) = name.strip_prefix('m').and_then(|x| x.parse::<usize>().ok()) else { continue };
         let mut s = String::new();
         canon_tokens(unwrap_surroundings(g.stream()), &mut s);
-        blocks.push((k, s));
+        // (an item whose attributes come from a macro's call site and whose body comes from the
+        // macro's definition -- surroundings 4 of 5 -- legitimately mixes two syntax contexts)
+        let drop_ctx = k % 5 == 4;
+        let mut seen: Vec<&str> = Vec::new();
+        let mut t = String::with_capacity(s.len());
+        for w in s.split(' ') {
+            if let Some(c) = w.strip_prefix("__ctx_") {
+                if drop_ctx {
+                    continue;
+                }
+                let idx = match seen.iter().position(|x| *x == c) {
+                    Some(i) => i,
+                    None => {
+                        seen.push(c);
+                        seen.len() - 1
+                    },
+                };
+                t.push_str(&format!("#{} ", idx));
+            } else if !w.is_empty() {
+                t.push_str(w);
+                t.push(' ');
+            }
+        }
+        blocks.push((k, t));
+    }
+    if blocks.is_empty() {
+        // nothing recognised: comparing two empty renderings would be a vacuous "equal"
+        return None;
     }
     blocks.sort_by_key(|b| b.0);
     Some(blocks.into_iter().map(|b| format!("m{}: {}", b.0, b.1)).collect::<Vec<_>>().join("\n"))
@@ -261,6 +394,9 @@ fn normalise_rej(rendering: &str, lib_rs: &str) -> String {
             if let Some(k) = rest.split(' ').next().and_then(|x| x.parse::<usize>().ok()) {
                 starts.push((ln + 1, k));
             }
+        } else if line.starts_with("pub mod d") {
+            // the second copies at the end of the crate are compared on their own
+            starts.push((ln + 1, usize::MAX - 1));
         }
     }
     let mut out: Vec<(usize, usize, String)> = Vec::new();
@@ -272,6 +408,9 @@ fn normalise_rej(rendering: &str, lib_rs: &str) -> String {
         let col = pos.split(':').nth(1).unwrap_or("");
         let line: usize = pos.split(':').nth(2).and_then(|x| x.parse().ok()).unwrap_or(own_line);
         let (start, k) = starts.iter().rev().find(|(s, _)| *s <= line).copied().unwrap_or((0, usize::MAX));
+        if k == usize::MAX - 1 {
+            continue;
+        }
         let flag = pos.split(':').nth(3).unwrap_or("-");
         out.push((k, seq, format!("m{}|{}|+{}:{}:{}", k, head, own_line.saturating_sub(start), col, flag)));
     }
@@ -507,7 +646,7 @@ fn prune_acc(dir: &Path, target: &Path, repo: &Path, backend: Backend, items: &[
         // line -> module index
         let mut starts: Vec<(usize, usize)> = Vec::new();
         for (ln, l) in lib.lines().enumerate() {
-            if let Some(rest) = l.strip_prefix("pub mod m") {
+            if let Some(rest) = l.strip_prefix("pub mod m").or_else(|| l.strip_prefix("pub mod d")) {
                 if let Some(k) = rest.split(' ').next().and_then(|x| x.parse::<usize>().ok()) {
                     starts.push((ln + 1, k));
                 }
@@ -542,6 +681,14 @@ fn setup_crate_as(dir: &Path, repo: &Path, backend: Backend, lib_rs: &str, alt: 
 fn setup_crate_files(dir: &Path, repo: &Path, backend: Backend, lib_rs: &str, extra: &[(String, String)], alt: bool) -> Result<(), String> {
     let (name, version, edition, extra_meta) = if alt { ("tier-r-alt-pkg", "9.9.9", "2021", "authors = [\"Somebody Else <else@example.org>\"]\ndescription = \"another crate\"\n") } else { ("tier-r", "0.0.0", "2021", "") };
     let dep = if alt {
+        // ... and depends on the *copy* of the macro's sources that ./check build keeps in another
+        // directory (the one the second build of the host tier is made from): `file!()`,
+        // `Location::caller()`, `env!("CARGO_MANIFEST_DIR")` inside o2o-macros and o2o-impl differ
+        let copy = dir.parent().and_then(|p| p.parent()).map(|b| b.join("repo-b"));
+        let repo = match &copy {
+            Some(c) if c.join("Cargo.toml").exists() => c.as_path(),
+            _ => repo,
+        };
         format!("mapper = {{ package = \"o2o\", path = \"{}\", default-features = false, features = [\"{}\"] }}", repo.display(), backend.tag())
     } else {
         format!("o2o = {{ path = \"{}\", default-features = false, features = [\"{}\"] }}", repo.display(), backend.tag())
@@ -642,6 +789,14 @@ pub fn prepare(cfg: &Cfg) -> Result<(), String> {
         if !out.status.success() {
             return Err(format!("tier-R dependency build failed ({}): {}", backend.tag(), String::from_utf8_lossy(&out.stderr).lines().filter(|l| l.starts_with("error")).take(5).collect::<Vec<_>>().join(" / ")));
         }
+        // ... against the copy of the macro's sources
+        let repo_b = cfg.build_dir.join("repo-b");
+        if repo_b.join("Cargo.toml").exists() {
+            let db = base.join(format!("{}-prep-b", backend.tag()));
+            if setup_crate_files(&db, &repo_b, backend, &crate_source(&["#[map(PrepDto)]\npub struct Prep { pub x: i32 }\npub struct PrepDto { pub x: i32 }\n".to_string()]), &[], false).is_ok() {
+                let _ = cargo_cmd(&db, &target, None).args(["build", "--offline", "-q"]).output();
+            }
+        }
         // the same for the other package / other toolchain (a failure here is not fatal: the run falls back)
         if other_toolchain().is_some() {
             let alt = base.join(format!("{}-prep-alt", backend.tag()));
@@ -715,6 +870,56 @@ pub fn run(cfg: &Cfg, corpus: &Corpus) -> Result<TierResult, String> {
                     },
                 }
             }
+            // one process, the same item twice: tokens and hygiene of the two expansions
+            let mut duplicates_equal = json!(null);
+            if kind == "acc" {
+                if let Some(x) = &reference {
+                    let d = hygiene_of_duplicates(x, items.len());
+                    duplicates_equal = json!(d.is_none());
+                    if let (Some((i, fd)), true) = (d, violation.is_none()) {
+                        let path = cfg.verif.join("replays").join(format!("C19-{}-rustc-{}-{}-twice.json", cfg.seed, backend.tag(), kind));
+                        let _ = std::fs::create_dir_all(cfg.verif.join("replays"));
+                        let v = json!({
+                            "property": "C19", "kind": "rustc_tier", "same_item_twice": true,
+                            "what": format!("one rustc process expanded item {} twice (modules m{} and d{} of the same crate) and the two expansions differ in tokens or in hygiene (syntax contexts renumbered by first appearance)", i, i, i),
+                            "backend": backend.tag(), "crate_kind": kind, "repo": cfg.repo.to_string_lossy(),
+                            "lib_rs": crate_source(items), "n_items": items.len(),
+                            "reference_run": runcfg_json(&runs[0]), "faulty_run": runcfg_json(&runs[0]),
+                            "first_diff": fd,
+                        });
+                        std::fs::write(&path, serde_json::to_string_pretty(&v).unwrap()).map_err(|e| e.to_string())?;
+                        violation = Some((format!("{}-{} (same item twice in one process): {}", backend.tag(), kind, fd), path));
+                    }
+                }
+            }
+            // the same crate, same package, same toolchain, same run configuration -- built against
+            // the *copy* of the macro's sources that lives in another directory (what two users, two
+            // CI runners, a vendored and a registry checkout differ in): compared strictly
+            let repo_b = cfg.build_dir.join("repo-b");
+            let mut copy_equal = json!(null);
+            if let (Some(x), true) = (&reference, repo_b.join("Cargo.toml").exists()) {
+                let dir_b = base.join(format!("{}-{}-b", backend.tag(), kind));
+                setup_crate_files(&dir_b, &repo_b, backend, &crate_source(items), &[], false)?;
+                let rc = &runs[0];
+                let r = if kind == "rej" { render_rej(&dir_b, &target, &shim, rc)? } else { render_acc(&dir_b, &target, &shim, rc)? };
+                compiles += 1;
+                copy_equal = json!(*x == r);
+                if *x != r && violation.is_none() {
+                    let fd = first_diff(x, &r);
+                    let path = cfg.verif.join("replays").join(format!("C19-{}-rustc-{}-{}-copy.json", cfg.seed, backend.tag(), kind));
+                    let _ = std::fs::create_dir_all(cfg.verif.join("replays"));
+                    let v = json!({
+                        "property": "C19", "kind": "rustc_tier", "copy_of_macro_sources": true,
+                        "what": "real cargo/rustc produced different output for the same crate when the macro was built from a copy of its sources in another directory",
+                        "backend": backend.tag(), "crate_kind": kind, "repo": cfg.repo.to_string_lossy(),
+                        "lib_rs": crate_source(items),
+                        "reference_run": runcfg_json(&runs[0]), "faulty_run": runcfg_json(rc),
+                        "first_diff": fd,
+                    });
+                    std::fs::write(&path, serde_json::to_string_pretty(&v).unwrap()).map_err(|e| e.to_string())?;
+                    violation = Some((format!("{}-{} (macro built from a copy of its sources): {}", backend.tag(), kind, fd), path));
+                }
+            }
             // history fault: the same modules in reverse source order (rustc expands derives in
             // source order, all in one process), compared module by module
             let mut permuted_equal = json!(null);
@@ -729,6 +934,9 @@ pub fn run(cfg: &Cfg, corpus: &Corpus) -> Result<TierResult, String> {
                 setup_crate_files(&alt_dir, &cfg.repo, backend, &reversed, &extra_files, true)?;
                 let _ = std::fs::remove_dir_all(alt_dir.join("tmp"));
                 let rc = &runs[runs.len() - 1];
+                // (without hygiene annotations: which tokens get one differs between toolchains -- nightly
+                // annotates attribute arguments, stable does not -- so across this run's toolchains the
+                // annotations are not comparable; hygiene is compared inside one run, on the duplicates)
                 let r = if kind == "rej" { render_rej(&alt_dir, &target, &shim, rc) } else { render_acc_mode(&alt_dir, &target, &shim, rc, false) };
                 let r = r?;
                 compiles += 1;
@@ -747,6 +955,14 @@ pub fn run(cfg: &Cfg, corpus: &Corpus) -> Result<TierResult, String> {
                         _ => ("<unlexable>".to_string(), "<unlexable>".to_string()),
                     }
                 };
+                if let Ok(d) = std::env::var("SIM_DUMP_TIER_R") {
+                    let _ = std::fs::write(format!("{}/{}-{}-ref.txt", d, backend.tag(), kind), &a);
+                    let _ = std::fs::write(format!("{}/{}-{}-alt.txt", d, backend.tag(), kind), &b);
+                    let _ = std::fs::write(format!("{}/{}-{}-alt-raw.txt", d, backend.tag(), kind), &r);
+                }
+                if a == "<unlexable>" {
+                    return Err(format!("tier R: the expanded output of the {} acc crate could not be split into modules; nothing would have been compared", backend.tag()));
+                }
                 permuted_equal = if a == "<unlexable>" { json!("not compared: rustc's expanded output did not lex") } else { json!(a == b) };
                 if a != b && violation.is_none() {
                     let fd = first_diff(&a, &b);
@@ -765,7 +981,7 @@ pub fn run(cfg: &Cfg, corpus: &Corpus) -> Result<TierResult, String> {
                 }
             }
             let lines = reference.as_ref().map(|r| r.lines().count()).unwrap_or(0);
-            summary.push(json!({"backend": backend.tag(), "crate": kind, "items": items.len(), "runs": runs.len(), "runs_equal_to_first": equal, "other_package_identity_and_reversed_source_order_equal_module_by_module": permuted_equal, "rendering_lines": lines}));
+            summary.push(json!({"backend": backend.tag(), "crate": kind, "items": items.len(), "runs": runs.len(), "runs_equal_to_first": equal, "same_item_twice_in_one_process_equal_incl_hygiene": duplicates_equal, "macro_built_from_a_copy_of_its_sources_equal": copy_equal, "other_package_identity_and_reversed_source_order_equal_module_by_module": permuted_equal, "rendering_lines": lines}));
         }
             Ok((summary, violation, compiles))
     };
@@ -819,6 +1035,52 @@ pub fn replay(cfg: &Cfg, v: &Value, path: &Path) -> i32 {
     }
     write_if_changed(&dir.join("src/lib.rs"), v["lib_rs"].as_str().unwrap_or(""));
     let _ = cargo_cmd(&dir, &target, None).args(["build", "--offline", "-q"]).output();
+    if v["same_item_twice"].as_bool().unwrap_or(false) {
+        if setup_crate_as(&dir, &cfg.repo, backend, v["lib_rs"].as_str().unwrap_or(""), false).is_err() {
+            return 2;
+        }
+        return match render_acc(&dir, &target, &shim, &a) {
+            Ok(x) => match hygiene_of_duplicates(&x, v["n_items"].as_u64().unwrap_or(6) as usize) {
+                Some((i, fd)) => {
+                    println!("replay (rustc tier, same item twice in one process): item {}: {}", i, fd);
+                    println!("VIOLATION property=C19 replay={}", path.display());
+                    1
+                },
+                None => {
+                    println!("replay (rustc tier): no longer reproduces");
+                    0
+                },
+            },
+            Err(e) => {
+                eprintln!("harness error: {}", e);
+                2
+            },
+        };
+    }
+    if v["copy_of_macro_sources"].as_bool().unwrap_or(false) {
+        let dir_b = base.join(format!("{}-{}-b", backend.tag(), kind));
+        let repo_b = cfg.build_dir.join("repo-b");
+        if setup_crate_files(&dir_b, &repo_b, backend, v["lib_rs"].as_str().unwrap_or(""), &[], false).is_err() {
+            return 2;
+        }
+        let f = |d: &Path, rc: &RunCfg| if kind == "rej" { render_rej(d, &target, &shim, rc) } else { render_acc(d, &target, &shim, rc) };
+        return match (f(&dir, &a), f(&dir_b, &a)) {
+            (Ok(x), Ok(y)) => {
+                if x != y {
+                    println!("replay (rustc tier, macro built from a copy of its sources): outputs differ: {}", first_diff(&x, &y));
+                    println!("VIOLATION property=C19 replay={}", path.display());
+                    1
+                } else {
+                    println!("replay (rustc tier): no longer reproduces");
+                    0
+                }
+            },
+            (Err(e), _) | (_, Err(e)) => {
+                eprintln!("harness error: {}", e);
+                2
+            },
+        };
+    }
     let permuted = v["permuted"].as_bool().unwrap_or(false);
     let f = |rc: &RunCfg| if kind == "rej" { render_rej(&dir, &target, &shim, rc) } else { render_acc_mode(&dir, &target, &shim, rc, !permuted) };
     let ra = if permuted { f(&b) } else { f(&a) };
